@@ -161,6 +161,12 @@ def run(prog: Program, rep: Report, tier: str) -> None:
                 tg = holes.get("ARG:target")
                 wantt = eff.get("target_temp")
                 okt = tg is not None and len(tg[2]) == 1 and tg[2][0][0] == "fmt" and tg[2][0][1] == "02x" and wantt is not None and canon(tg[2][0][2]) == canon(wantt)
+                if not okt and tg is not None and wantt is not None:
+                    # the same text in canonical form: '{:02x}' of a number read from two hex digits is those digits
+                    from ..lib import format_value
+                    from ..interp import Ctx, State
+                    ref = format_value(I, wantt, "02x", State(), Ctx(None, fi.module, 0), fi.node)
+                    okt = not T.is_top(ref) and canon(tg) == canon(ref)
                 if not okt:
                     fail("R16.2", f"status frame target is {T.show(tg)[:120] if tg else None}; expected '{{:02x}}' of the merged target temperature")
                 if builds or swings:
